@@ -189,6 +189,11 @@ def m_x_Attribute(self, st, n, k):
             raise Untranslated('attribute %s of %s' % (n.attr, base.cls))
         if isinstance(base, VFunc) and base.tag == 'classof' and n.attr == '__name__':
             return k(st, VStr(self.class_name_of(st, base.payload[0])))
+        if isinstance(base, VDyn) and n.attr == 'pattern':
+            if 'regex' not in self.axiom_sets:
+                self.axiom_sets.append('regex')
+            return self.with_raises(st, [(z3.Not(self.is_regex(base.z)), 'AttributeError')],
+                                    lambda st: k(st, VBytes(T.rx_pattern(T.Val.oval(base.z)))))
         if isinstance(base, VDyn) and n.attr not in DYN_METHODS:
             owners = [c for c in self.classes if n.attr in self.classes[c].get('attrs', {})]
             roots = [c for c in owners if not any(o != c and self.is_subclass(c, o) for o in owners)]
@@ -866,6 +871,7 @@ def m_bi_hasattr(self, st, pos, kws, k):
     if isinstance(obj, (VBytes, VInt, VNone, VBool)) and name.py == 'search':
         return k(st, VBool(False))
     if isinstance(obj, VDyn) and name.py == 'search':
+        # (bytes, ints, None, lists, fields have no `search`; an opaque object has one iff it is a compiled regex)
         return k(st, VBool(self.is_regex(obj.z)))
     if isinstance(obj, VRef) and name.py is not None:
         owner, kind = self.attr_kind(obj.cls, name.py)
@@ -1114,7 +1120,20 @@ def m_bm_conf_get(self, st, c, pos, kws, k):
 def m_bm_bytes_find(self, st, b, pos, kws, k):
     m, c = self.as_bytes(pos[0])
     if len(pos) > 1:
-        raise Untranslated('bytes.find with start')
+        # s.find(m, a[, e]) == -1 if a > len(s) else (lambda r: -1 if r < 0 else a' + r)(s[a:e].find(m))
+        # with a' the clamped start (python semantics of find with slice-like bounds; assumed, cross-checked)
+        n = T.blen(b.z)
+        a, ca = self.as_int(pos[1])
+        e = self.as_int(pos[2])[0] if len(pos) > 2 else None
+        l, h = self.clamp_slice(a, e, n)
+        sub = T.bslice(b.z, l, h)
+        r = T.bfind(sub, m)
+        a1 = z3.If(a < 0, a + n, a)
+        res = z3.If(z3.Or(a1 > n, r < 0), -1, l + r)
+        if 'find' not in self.axiom_sets:
+            self.axiom_sets.append('find')
+        self.used_assumptions.add('bytes.find(m, start, end) == find on the slice, shifted (assumed, cross-checked)')
+        return self.with_raises(st, [(c, 'TypeError'), (ca, 'TypeError')], lambda st: k(st, VInt(res)))
     self.used_assumptions.add('bytes.find returns the least index of an occurrence or -1 (theory.find_axioms)')
     if 'find' not in self.axiom_sets:
         self.axiom_sets.append('find')
@@ -1176,6 +1195,11 @@ def m_bm_dyn_to_bytes(self, st, v, pos, kws, k):
 
 
 m_bm_int_to_bytes = None
+
+
+def m_bm_dyn_search(self, st, v, pos, kws, k):
+    return self.with_raises(st, [(z3.Not(self.is_regex(v.z)), 'AttributeError')],
+                            lambda st: self.bm_rx_search(st, VRx(T.Val.oval(v.z)), pos, kws, k))
 
 
 def m_bm_rx_search(self, st, rx, pos, kws, k):
